@@ -313,6 +313,8 @@ class Sem:
         form = t["len"][0]
         if form in ("fixed", "expr"):
             n = self._count(t, ctx)
+            if n > 1_000_000 and not ischar and not iswchar and not self.size(et):
+                raise Unsupported("astronomic count of zero-size or variable-size elements")
             if ischar:
                 return bytes(self._take(buf, pos, n, mask)), pos + n
             if iswchar:
